@@ -29,6 +29,8 @@ type c14path struct {
 	// Flash: on that node a client subscribes to the matching filter (QoS 0) and unsubscribes again before the node's
 	// transmit queue is drained; both changes then travel in the queue's own order. 0 = none
 	Flash int `json:"subscribed_and_unsubscribed_within_one_gossip_round_on_node"`
+	// Dev: exactly one answer of the environment returns 1.5 s after taking effect (installed right before the publish)
+	Dev *Deviation `json:"one_late_answer,omitempty"`
 }
 
 var c14pairs = [][3]string{{"a/b", "a/+", "a/c"}, {"a", "a/#", "b/#"}, {"a/b/c", "#", "+"}, {"a/b", "+/b", "a/b/c"}}
@@ -71,12 +73,12 @@ func c14paths() []c14path {
 							if n == 3 && q == 2 && !vk.Thorough() {
 								continue
 							}
-							out = append(out, c14path{n, pn, hosts, un, pi, q, 0, 0, nil, false, 0, 0})
+							out = append(out, c14path{n, pn, hosts, un, pi, q, 0, 0, nil, false, 0, 0, nil})
 							if pi == 0 && q == 1 && len(un) == 0 {
 								// a remote matching subscriber unsubscribes, but that news has not reached the publisher yet
 								for _, r := range remotes {
 									if hosts[r-1]&1 != 0 {
-										out = append(out, c14path{n, pn, hosts, nil, pi, q, 0, 0, nil, false, r, 0})
+										out = append(out, c14path{n, pn, hosts, nil, pi, q, 0, 0, nil, false, r, 0, nil})
 									}
 								}
 							}
@@ -84,34 +86,50 @@ func c14paths() []c14path {
 								// a subscription that comes and goes within one gossip round on a node without matching subscriber
 								for _, r := range remotes {
 									if hosts[r-1]&1 == 0 {
-										out = append(out, c14path{n, pn, hosts, nil, pi, q, 0, 0, nil, false, 0, r})
+										out = append(out, c14path{n, pn, hosts, nil, pi, q, 0, 0, nil, false, 0, r, nil})
 									}
 								}
 							}
 							if pi == 0 && q == 1 && len(un) > 0 && len(un) < len(remotes) {
 								// the nodes that were unreachable are slow instead: everybody must still get the message
-								out = append(out, c14path{n, pn, hosts, nil, pi, q, 0, 0, un, false, 0, 0})
+								out = append(out, c14path{n, pn, hosts, nil, pi, q, 0, 0, un, false, 0, 0, nil})
 							}
 							if pi == 0 && q == 1 && len(un) == 0 && n == 2 && pn == 1 && hosts[0]&1 != 0 {
-								out = append(out, c14path{n, pn, hosts, nil, pi, q, 0, 0, nil, true, 0, 0})
+								out = append(out, c14path{n, pn, hosts, nil, pi, q, 0, 0, nil, true, 0, 0, nil})
 							}
 							if pi == 0 && q == 1 {
 								for ex := 1; ex <= n; ex++ {
 									if hosts[ex-1]&1 != 0 {
-										out = append(out, c14path{n, pn, hosts, un, pi, q, 0, ex, nil, false, 0, 0})
+										out = append(out, c14path{n, pn, hosts, un, pi, q, 0, ex, nil, false, 0, 0, nil})
 									}
 								}
 							}
 							if vk.Thorough() && pi == 0 && q == 1 {
 								for _, r := range remotes {
 									if hosts[r-1]&1 != 0 {
-										out = append(out, c14path{n, pn, hosts, un, pi, q, r, 0, nil, false, 0, 0})
+										out = append(out, c14path{n, pn, hosts, un, pi, q, r, 0, nil, false, 0, 0, nil})
 									}
 								}
 							}
 						}
 					}
 				}
+			}
+		}
+	}
+	// one late answer around the publish: every node hosts a matching subscriber
+	for _, n := range []int{2, 3} {
+		hosts := make([]int, n)
+		for i := range hosts {
+			hosts[i] = 1
+		}
+		for _, q := range []int32{1, 2} {
+			for k := 1; k <= 12; k++ {
+				out = append(out, c14path{Nodes: n, Publisher: 1, Hosts: hosts, Qos: q, Dev: &Deviation{"client-write", k, 1500 * time.Millisecond}})
+			}
+			for k := 1; k <= 4; k++ {
+				out = append(out, c14path{Nodes: n, Publisher: 1, Hosts: hosts, Qos: q, Dev: &Deviation{"log-append", k, 1500 * time.Millisecond}})
+				out = append(out, c14path{Nodes: n, Publisher: 1, Hosts: hosts, Qos: q, Dev: &Deviation{"rpc", k, 1500 * time.Millisecond}})
 			}
 		}
 	}
@@ -243,9 +261,13 @@ func TestC14CrossNode(t *testing.T) {
 				w.mu.Lock()
 				log0 := len(w.LogEvents)
 				w.mu.Unlock()
+				w.SetDeviation(p.Dev)
 				pub.Publish(topic, "payload-1", p.Qos, false, 7)
 				w.Step()
 				w.Idle(5 * time.Second)
+				if p.Dev != nil {
+					w.Idle(5 * time.Second)
+				}
 				Observe(w, rep)
 				w.mu.Lock()
 				logs := append([]LogEvent{}, w.LogEvents[log0:]...)
